@@ -3,6 +3,7 @@ package main
 // Evaluation of spec expressions into symbolic values.
 
 import (
+	"sort"
 	"fmt"
 	"go/constant"
 	"go/token"
@@ -82,6 +83,21 @@ func (e *SpecEnv) lookupType(name string) types.Type {
 					if tn, ok := imp.Scope().Lookup(name[i+1:]).(*types.TypeName); ok {
 						return tn.Type()
 					}
+				}
+			}
+		}
+		// not an import of the contract's package (a contract on a dependency speaking about a type of
+		// its caller): any loaded package of that name
+		var paths []string
+		for path := range e.ex.L.Pkgs {
+			paths = append(paths, path)
+		}
+		sort.Strings(paths)
+		for _, path := range paths {
+			lp := e.ex.L.Pkgs[path]
+			if lp.Types != nil && lp.Types.Name() == name[:i] {
+				if tn, ok := lp.Types.Scope().Lookup(name[i+1:]).(*types.TypeName); ok {
+					return tn.Type()
 				}
 			}
 		}
@@ -258,7 +274,7 @@ func (e *SpecEnv) ident(name string) Val {
 					st = e.localSt
 				}
 			}
-			if !a.Heap {
+			if !isHeapAlloc(a) {
 				if v, ok := st.Allocs[a]; ok {
 					return v
 				}
@@ -603,7 +619,9 @@ func (e *SpecEnv) eval(x *SExpr) Val {
 			}
 			e.vars[b.Name] = scalar(t, bv)
 		}
+		specBound = append(specBound, bound...)
 		body := e.eval(x.Args[0]).S()
+		specBound = specBound[:len(specBound)-len(bound)]
 		for n, s := range saved {
 			if s == nil {
 				delete(e.vars, n)
